@@ -171,8 +171,12 @@ def run_case(case):
                                        f"{rec['open_after']} transports open after step {i}"))
             txs = net.transmissions[rec["tx0"]:rec["tx1"]]
             clean = (rec["outcome"] == "result" and len(txs) == 1 and not s["faults"] and not s["connects"])
+            # peer-side events between the two requests: closes/resets/errors at any time, and ANY stray delivery
+            # that reached the idle socket (e.g. a late exception frame, which legitimately closes a UDP socket)
             disturbed = prev is not None and any(
-                d["kind"] in ("fin", "rst", "icmp") and d["status"] == "delivered" and prev["t0"] <= d["t_run"] <= rec["t1"]
+                d["status"] == "delivered" and (
+                    (d["kind"] in ("fin", "rst", "icmp") and prev["t0"] <= d["t_run"] <= rec["t1"]) or
+                    (d["tx"] < rec["tx0"] and prev["t1"] <= d["t_run"] <= rec["t1"] and d["t_run"] > prev["t_done"]))
                 for d in net.deliveries)
             if ka and prev is not None and between_clean and clean and prev["clean"] and not disturbed:
                 if prev["tid"] != txs[0]["tid"]:
@@ -184,7 +188,8 @@ def run_case(case):
                     violations.append(viol(f"C10:not-recovered:{tr}",
                                            f"fault-free request after the history ended {rec['outcome']} "
                                            f"({len(txs)} transmissions)"))
-            prev = {"clean": clean, "tid": txs[0]["tid"] if txs else None, "t0": rec["t0"]}
+            prev = {"clean": clean, "tid": txs[0]["tid"] if txs else None, "t0": rec["t0"], "t1": rec["t1"],
+                    "t_done": rec["t1"]}
             between_clean = True
         elif kind == "close":
             if info != 0:
